@@ -21,4 +21,9 @@ func init() {
 	})
 	RegisterIntrinsic("time.runtimeIsBubbled", func(in *Interp, a []Value, _ *Frame) Value { return term.False })
 	RegisterIntrinsic("time.Sleep", func(in *Interp, a []Value, _ *Frame) Value { return Tuple(nil) })
+	// timers never fire in the engine: time.After yields a channel that is never ready
+	RegisterIntrinsic("time.After", func(in *Interp, a []Value, _ *Frame) Value {
+		in.nextMap++
+		return &Chan{ID: in.nextMap, Cap: 1}
+	})
 }
